@@ -37,7 +37,11 @@ def expand_attractor_seeds(sd: SuccessionDiagram, size_limit: int | None = None)
         (node, successors) = stack.pop()
         if successors is None:
             # Only allow successor computation if size limit hasn't been exceeded.
-            if (size_limit is not None) and (len(sd) >= size_limit):
+            if (
+                (size_limit is not None)
+                and (len(sd) >= size_limit)
+                and not sd.node_data(node)["expanded"]
+            ):
                 # Size limit reached.
                 return False
 
